@@ -5,7 +5,6 @@ package vamana
 // No-ops without the verif tag.
 func verifSawChange(IndexVectorChange) {}
 
-func (v *IndexVamana) verifClassified([]IndexVectorChange, []uint64, map[uint64]struct{}, map[uint64]struct{}) {
-}
+func (v *IndexVamana) verifClassified(updated, deleted, touched, inserted any) {}
 
-func verifEdgeScan([]uint64, []uint64) {}
+func verifEdgeScan(toPrune, toSave any) {}
